@@ -17,8 +17,10 @@ from ..model import AnalysisError, norm, dotted
 
 CC = 'mininec.Geobj.compute_connections'
 END_STATES = ('free', 'ground', 'other+', 'other-', 'self+', 'self-')
+END_STATES_2 = END_STATES + ('otherB+', 'otherB-')      # end 2 may join a second earlier object
 N_SELF = 2          # position of the object under analysis
-N_OTHER = 0         # position of an earlier object
+N_OTHER = 0         # position of an earlier object (A)
+N_OTHER_B = 1       # position of another earlier object (B)
 PIDX = 100          # parent.pulses.pulse_idx at entry
 USER_TAG = 77       # explicit tag of the object under analysis (differs from every position + 1)
 
@@ -38,9 +40,22 @@ def idx_value(state):
     if state == 'ground':
         return -(N_SELF + 1)
     sign = 1 if state.endswith('+') else -1
+    if state.startswith('otherB'):
+        return (N_OTHER_B + 1) * sign
     if state.startswith('other'):
         return (N_OTHER + 1) * sign
     return (N_SELF + 1) * sign
+
+
+def object_of(state):
+    """identity of the object an end is joined to: 'self' | 'A' | 'B' | None"""
+    if state.startswith('self'):
+        return 'self'
+    if state.startswith('otherB'):
+        return 'B'
+    if state.startswith('other'):
+        return 'A'
+    return None
 
 
 def make_env(s0, s1, nseg):
@@ -58,6 +73,7 @@ def make_env(s0, s1, nseg):
         # a tag is chosen by the user: unrelated to the position of the object (Geobj.idx: "must NOT use the tag")
         'self.tag': USER_TAG,
         '_state': (s0, s1, nseg),
+        '_objs': {'self': 'self', 'self.conn[0].list[0][0]': object_of(s0), 'self.conn[1].list[0][0]': object_of(s1)},
     }
 
 
@@ -109,6 +125,13 @@ def aeval(e, env, depth=0):
         if isinstance(e.op, ast.Mult):
             return a * b
         raise Undecidable('operator in %s' % t[:60])
+    if isinstance(e, ast.Compare) and len(e.ops) == 1 and isinstance(e.ops[0], (ast.Is, ast.IsNot)) and \
+       norm(e.left) in env.get('_objs', {}) and norm(e.comparators[0]) in env.get('_objs', {}):
+        # identity of the objects the two ends are joined to
+        a, b = env['_objs'][norm(e.left)], env['_objs'][norm(e.comparators[0])]
+        if a is None or b is None:
+            raise Undecidable('identity of the neighbour of an end that is not joined: %s' % t[:60])
+        return (a == b) if isinstance(e.ops[0], ast.Is) else (a != b)
     if isinstance(e, ast.Compare) and len(e.ops) == 1:
         a = aeval(e.left, env, depth + 1)
         b = aeval(e.comparators[0], env, depth + 1)
@@ -237,8 +260,15 @@ def creation_model(ctx):
         if 'Pulse(' not in txt and 'end_segs' not in txt and '.pulses' not in txt and not returns_value:
             skip.add(g.qual)
     stmts = [st for st in f.body() if _relevant(st, {q.rsplit('.', 1)[1] for q in skip})]
+    # simple properties of the object are looked through, except the ones the abstract state gives a value
+    keep_atomic = {k_[len('self.'):] for k_ in make_env('free', 'free', 2) if k_.startswith('self.') and
+                   k_[len('self.'):].isidentifier()}
+    for nm_ in keep_atomic:
+        g_ = ctx.model.resolve_method(f.cls.name, nm_) if f.cls is not None else None
+        if g_ is not None and g_.kind in ('property', 'cached_property'):
+            skip.add(g_.qual)
     paths = [p for p in SymExec(ctx, f, depth=3, bind_loops=True, objects=True, effects=True, max_paths=20000,
-                                   volatile=('pulse_idx',), no_expand=skip).run(stmts=stmts)
+                                   volatile=('pulse_idx',), no_expand=skip, props=True).run(stmts=stmts)
              if p.end != 'raise']
     n_create = sum(1 for p in paths for ev in p.events if ev[0] == 'create' and norm(ev[2].func) == 'Pulse')
     if not paths or not n_create:
@@ -316,9 +346,11 @@ def creations_of(p):
 
 def states(nsegs=(1, 2, 5)):
     for s0 in END_STATES:
-        for s1 in END_STATES:
+        for s1 in END_STATES_2:
             if s0.startswith('self') != s1.startswith('self'):
                 continue
+            if s1.startswith('otherB') and not s0.startswith('other'):
+                continue        # a second neighbour only matters next to a first one
             for nseg in nsegs:
                 if nseg == 1 and s0.startswith('self'):
                     continue        # a single segment cannot be joined to itself
